@@ -15,3 +15,4 @@ try:
         print("  ", l)
 finally:
     subprocess.run(["git", "-C", "/repo", "checkout", "--", "."])
+    subprocess.run(["git", "-C", "/verif", "checkout", "--", "evidence/%s.json" % prop.upper()])   # keep the committed evidence from a clean run
